@@ -2,6 +2,7 @@
 cd /verif
 run() {
   d=$(mktemp -d); cp -r /repo/include $d/
+  cp evidence/C12.json $d/ev_keep.json 2>/dev/null; ls replays > $d/replays_before.txt 2>/dev/null   # a mutant run must not leave evidence / replays behind
   python3 - "$d/include/momo/$2" "$3" "$4" <<'PY'
 import sys
 p,old,new=sys.argv[1:4]
@@ -11,8 +12,10 @@ open(p,'w').write(s.replace(old,new))
 PY
   echo "=== $1"; VERIF_REPO=$d timeout 3000 ./check C12 > build/C12/mut_$1.log 2>&1; echo "exit=$?"
   grep -E "BROKEN|VIOLATION|done:" build/C12/mut_$1.log | cut -c1-220
+  cp $d/ev_keep.json evidence/C12.json 2>/dev/null; for r in $(ls replays | grep '^C12-'); do grep -qx "$r" $d/replays_before.txt || rm -f replays/$r; done
   rm -rf $d
 }
 run G1 details/HashBucketOpen2N2.h "			for (size_t i = 0; i < maxCount; ++i)" "			for (size_t i = 0; i + 1 < maxCount; ++i)"
 run G2 details/HashBucketOpen2N2.h "			mState[1] = uint8_t{0};" "			//mState[1] = uint8_t{0};"
 run G3 details/HashBucketOpen2N2.h "			--mState[1];" "			mState[1] = static_cast<uint8_t>((mState[1] - 1) & 3);"
+python3 /verif/props/C12/regen_clean.py   # leave the clean translation in the shared coq directory
